@@ -26,6 +26,7 @@ func init() {
 	subs["c04"] = func(c *Ctx) {
 		c04Guard(c)
 		c04Engine(c)
+		c04PoolGuard(c) // part (iii): the combined machine pool x guard (c04_poolguard.go)
 	}
 	subs["c04g"] = c04Guard
 }
